@@ -364,11 +364,80 @@ def tie_arrayops(ctx, path, count):
             ctx.violation("array-op-differs-from-model:" + cases[i][2].split()[1],
                           "an array / vec opcode does not do what Model/TypedArray.v (proved: non-int index => index error, "
                           "typed arm = generic index op) says", {"case": cases[i][2]})
+    # ---- literals and for-each steps (same harness run)
+    def hobj_term(cont):
+        c = cont.split(":")
+        if c[0] in ("A", "V"):
+            ws = "[" + "; ".join(f"{x}%N" for x in c[2].split(",") if x) + "]"
+            return f"({'HArray' if c[0] == 'A' else 'HVec'} (push_all (anew {c[1]} 0) {ws}))"
+        return f"(HString {c[1]})" if c[0] == "S" else ("HOther" if c[0] == "O" else "HNone")
+    lit, each = [], []
+    for line in out.splitlines():
+        if line.startswith("QLit"):
+            q, o = line.split("\t")
+            t = q.split(" ")
+            ws = [x for x in (t[2] if len(t) > 2 else "").split(",") if x]
+            if o.startswith(("A:", "V:")):
+                c = o.split(":")
+                obs = "[1%N; " + str({"KI": 0, "KF": 1, "KB": 2, "KO": 3}[c[1]]) + "%N" + "".join(f"; {x}%N" for x in c[2].split(",") if x) + "]"
+            elif o.startswith("E 1"):
+                obs = "[0%N]"
+            else:
+                obs = "[9%N]"
+            lit.append(("[" + "; ".join(f"{x}%N" for x in ws) + "]", obs, line, ws, o))
+        elif line.startswith("QEach"):
+            q, o = line.split("\t")
+            t = q.split(" ")
+            u = o.split()
+            obs = {"W": lambda: f"[0%N; {u[1]}%N]", "S": lambda: f"[1%N; {u[1]}%N]", "END": lambda: "[2%N]",
+                   "E": lambda: "[3%N]" if u[1] == "1" else "[9%N]", "P": lambda: "[9%N]"}[u[0]]()
+            each.append((f"({hobj_term(t[2])}, {t[3]}%N)", obs, line, int(t[1]), t[2], o))
+    ldefs = ("Definition kcode (k : akind) : N := match k with KI => 0 | KF => 1 | KB => 2 | KO => 3 end.\n"
+             "Definition run_lit (ws : list N) : list N := match op_lit ws with Some d => 1%N :: kcode (kind_of_data d) :: contents d | None => [0%N] end.\n"
+             "Definition run_each (q : hobj * N) : list N := match op_each (fst q) (snd q) with EElem w => [0%N; w] | EChar i => [1%N; N.of_nat i] | EEnd => [2%N] | EErr => [3%N] end.\n")
+    imp = "From Aelys Require Import Model.Value Model.TypedArray."
+    lf, lerr = vlib.coq_eval_cases("c06l", imp, "run_lit", "list_eqb N.eqb", [(q, o) for q, o, *_ in lit], shard=500, extra_defs=ldefs)
+    ef, eerr = vlib.coq_eval_cases("c06e", imp, "run_each", "list_eqb N.eqb", [(q, o) for q, o, *_ in each], shard=500, extra_defs=ldefs)
+    if lerr or eerr:
+        ctx.broken.append("correspondence TypedArray literals / for-each: model evaluation failed")
+        ctx.log(((lerr or "") + (eerr or ""))[-2000:])
+    other = []
+    seen = set()
+    for i in lf:
+        _, _, line, ws, o = lit[i]
+        kinds = [kind_of_word(int(x)) for x in ws]
+        coerced = o.startswith(("A:", "V:")) and kinds and kinds[0] in ("int", "float", "bool") and any(k != kinds[0] for k in kinds)
+        if coerced:
+            sig = f"literal-element-coerced:{line.split()[1]}:{kinds[0]}"
+            if sig not in seen:
+                seen.add(sig)
+                ctx.violation(sig, "an array / vec literal stored 0 / 0.0 / false in place of an element of another kind "
+                              f"(elements {ws}, built {o})", {"case": line, "how": "hx_c06 --arrayops"})
+        else:
+            other.append(line)
+    for i in ef:
+        _, _, line, opc, cont, o = each[i]
+        silent = opc in (177, 179) and o == "END" and not cont.startswith({177: "S:", 179: "A:"}[opc])
+        if silent:
+            sig = f"typed-foreach-silent:{opc}:{cont.split(':')[0]}"
+            if sig not in seen:
+                seen.add(sig)
+                ctx.violation(sig, f"for-each opcode {opc} given {'a non-collection' if cont[0] in 'OH' else 'a collection of another kind'} "
+                              "ended the loop silently (the generic VecForLoop iterates it / raises the type error)",
+                              {"case": line, "how": "hx_c06 --arrayops"})
+        else:
+            other.append(line)
+    if other:
+        ctx.broken.append(f"correspondence TypedArray literals / for-each: model and VM differ on {len(other)} cases")
+        ctx.cov["lit_each_disagreements"] = other[:6]
+        ctx.log("literal / for-each disagreements:", other[:3])
+    ctx.cov["literal_cases"] = len(lit)
+    ctx.cov["foreach_cases"] = len(each)
     ctx.cov["arrayop_cases"] = len(cases)
     ctx.cov["arrayop_by_opcode"] = {str(k): v for k, v in sorted(byop.items())}
     ctx.cov["arrayop_index_word_kinds"] = idxkinds
     ctx.add_samples([{"array_opcode": cases[0][2]}] if cases else [])
-    return len(cases)
+    return len(cases) + len(lit) + len(each)
 
 
 # ----------------------------------------------------------------------------------------------
@@ -574,6 +643,26 @@ def gen_cases():
                 cs.append(mk("typed-array-index", ann, T, f"store:{src}:{v}",
                              pre + f"fn f(k) {{ let a: {ann} = {ctor}\n a[k] = {newv}\n let r = a[0]\n return r }}\nlet r = f({iexpr})\n",
                              pre + f"fn g(k) {{ let a = dyn({dctor})\n a[k] = {dy(newv)}\n let r = a[0]\n return r }}\nlet r = g({iexpr})\n"))
+    # array / vec literals with one element of another runtime kind (ArrayLit / VecLit): the element must either be
+    # kept or the literal be a type error -- reference: the value itself
+    for D, K in (("int", "1"), ("float", "1.5"), ("bool", "true")):
+        for T, vs in VALS.items():
+            for v in vs[:2]:
+                for lname, lopen in (("array", "["), ("vec", "Vec[")):
+                    for posn in (1, 0):
+                        elems = [K, K, K]
+                        elems[posn] = "f(" + dy(v) + ")"
+                        cs.append(mk("literal-element", D, T, f"{lname}:{posn}:{v}",
+                                     f"fn f(a: {D}) -> {D} {{ let t = a\n return t }}\nlet arr = {lopen}{', '.join(elems)}]\nlet r = arr[{posn}]\n",
+                                     f"let r = {dy(v)}\n"))
+    # typed for-each over a value of another kind (StringForLoop / ArrayForLoop / VecForLoop)
+    EACH = [("string", '"ab"'), ("Array<int>", "Array<Int>[1, 2]"), ("Vec<int>", "Vec<Int>[1, 2, 3]"), ("Array<float>", "Array<Float>[1.5]")]
+    for D, good in EACH:
+        for T, v in [("int", "42"), ("float", "2.5"), ("bool", "true"), ("null", "null"), ("function", "helper"),
+                     ("string", '"xyz"'), ("array", "Array<Int>[7, 8]"), ("array", "Vec<Int>[9]"), ("array", "Array<Float>[0.5, 1.5]")]:
+            cs.append(mk("typed-foreach", D, T, f"count:{v}",
+                         f"fn each(s: {D}) {{ let mut n = 0\n for c in s {{ n += 1 }}\n return n }}\nlet r = each({dy(v)})\n",
+                         f"fn each(s: Vec<int>) {{ let mut n = 0\n for c in s {{ n += 1 }}\n return n }}\nlet r = each({dy(v)})\n"))
     # no annotation, no dynamic code: regression cases for fix 1cf0449 (sema typed `int OP float` as its LEFT
     # operand, so the enclosing operation was a typed int opcode on a float; found by the C02 tie)
     for op1 in ("*", "+", "-", "/"):
@@ -706,6 +795,8 @@ def classify(case, o, r):
     same = (case["D"], case["T"]) in SAME_TYPE or case["position"] == "sized-mixed-arith"
     if case["position"] == "typed-array-index":
         same = case["T"] == "int"
+    if case["position"] in ("literal-element", "typed-foreach"):
+        same = False
     pos = case["position"]
     if ocl == "panic" or om > 0:
         how = "panic: " + odet[:60] if ocl == "panic" else f"{om} unchecked-accessor reads of a wrong-kind value (result {oout[:40]!r})"
@@ -726,6 +817,10 @@ def classify(case, o, r):
         op = re.match(r"x(\S+?)y:", case["detail"]).group(1)
         if t1 == "int" and t2 == "int" and op in ARITH:
             return ("viol", f"ffg-int-promotion:{op}", what)
+    if pos == "literal-element" and ocl == "ok":
+        return ("viol", f"literal-element-coerced:pipeline:{case['D']}<-{case['T']}", what)
+    if pos == "typed-foreach" and ocl == "ok" and oout.startswith("0"):
+        return ("viol", f"typed-foreach-silent:pipeline:{case['D']}<-{case['T']}", what)
     return ("viol", f"divergence:{pos}:{case['D']}<-{case['T']}:{ocl}-vs-{rcl}", what)
 
 
